@@ -107,6 +107,7 @@ def run(item, ctx, tier, seed):
             for how, s, cmb in derived:
               base = dict(base, derived=how)
               ctx.state()
+              pos_keep, neg_keep = np.array(s.pos, copy=True), np.array(s.neg, copy=True)
               for ci, (i_fnr, i_fpr, i_thr, i_nb) in list(enumerate(combos)) if how == "constructed" else [(combos.index(c), c) for c in cmb]:
                   fnr_in, fpr_in = b["rate_menu"][i_fnr], b["rate_menu"][i_fpr]
                   thr_in, nbp = thr_menu[i_thr], b["nb_points"][i_nb]
@@ -179,6 +180,13 @@ def run(item, ctx, tier, seed):
                               and np.array_equal(np.asarray(r.tar), np.asarray(r.tpr), equal_nan=True)
                               and np.array_equal(np.asarray(r.trr), np.asarray(r.tnr), equal_nan=True)):
                           ctx.fail("derived-views", case, observed="mismatch", expected="complements/aliases", snippet=snip)
+                      # the curve's arrays are the caller's: overwriting them must not reach the Scores object
+                      for a_ in (r.thresholds, r.fnr, r.fpr):
+                          if isinstance(a_, np.ndarray) and a_.flags.writeable and a_.size:
+                              a_[...] = -123.0
+                      if not (np.array_equal(np.asarray(s.pos), pos_keep) and np.array_equal(np.asarray(s.neg), neg_keep)):
+                          ctx.fail("returned-curve-does-not-alias-the-scores", case, observed=[s.pos, s.neg], expected=[pos_keep, neg_keep])
+                          s.pos, s.neg = pos_keep.copy(), neg_keep.copy()
             # unknown axis
             for bad in ("auc", "FPR", ""):
                 ctx.tick()
